@@ -50,7 +50,7 @@ def expected_nondefault_ids(spec):
 @st.composite
 def case_strategy(draw, tier):
     spec = draw(S.configurator_spec(max_items=6))
-    ids = ["a", "b", "c", "d", "e", "f", "R1", "R2", "R3", "zz"]
+    ids = ["a", "b", "c", "d", "e", "f", "R1", "R2", "R3", "zz", "a ", "A", " a"]
     prios = []
     for _ in range(draw(st.integers(1, 2))):
         d = draw(st.dictionaries(st.sampled_from(ids), st.sampled_from([1, 1, 2, 2, 3, -1, -2, -3]), min_size=draw(st.integers(0, 1)), max_size=4))
@@ -60,6 +60,10 @@ def case_strategy(draw, tier):
         base = draw(st.sampled_from([2 ** 53, 1_760_000_000_000_000_000, 2 ** 60]))
         prios = [[[k, (base + abs(v) * draw(st.integers(1, 3))) * (1 if v > 0 else -1)] for k, v in pr] for pr in prios]
         return {"model": spec, "prios": prios, "huge_levels": True, "via": draw(st.sampled_from([0, 0, 1, 2]))}
+    if draw(st.integers(0, 5)) == 0:
+        # levels that differ only at / beyond the 16-bit "default integer range" (a clamp to it would merge them)
+        lvl = draw(st.sampled_from([{1: 32767, 2: 32768, 3: 32769}, {1: 40000, 2: 50000, 3: 100000}, {1: 1, 2: 32768, 3: 65536}]))
+        prios = [[[k, lvl[abs(v)] * (1 if v > 0 else -1)] for k, v in pr] for pr in prios]
     return {"model": spec, "prios": prios, "via": draw(st.sampled_from([0, 0, 0, 1, 1, 2])), "only_leafs": draw(st.integers(0, 3)) == 0}
 
 
